@@ -501,6 +501,17 @@ func (c *Ctx) streamingFlagOrigin(fr FieldRef) string {
 						res = ch[0]
 					}
 				}
+			case *ssa.UnOp:
+				// a local kept in memory because a function literal captures it: every value assigned to it
+				if cell, isCell := x.X.(*ssa.Alloc); isCell && x.Op == token.MUL {
+					for _, r := range *cell.Referrers() {
+						if st, isSt := r.(*ssa.Store); isSt && st.Addr == ssa.Value(cell) {
+							if _, ch := fieldChain(st.Val); len(ch) == 1 {
+								res = ch[0]
+							}
+						}
+					}
+				}
 			case *ssa.Parameter:
 				// client: which param index -> NewStream passes desc.X at that position
 				idx := -1
